@@ -132,16 +132,20 @@ pub fn strategy() -> BoxedStrategy<Scenario> {
 pub fn run(ctx: &Ctx) {
     sim::init();
     ctx.set_level("fault_enumeration");
-    ctx.set_rule("both worker roles under the simulated socket. Exhaustive: for windowsize 1..W (quick 4, thorough 8), file lengths around one and two windows (multiples and non-multiples of blksize), with/without OACK handshake, and EVERY receive position p of the lossless run: the peer falls silent at p; the peer sends ERROR (codes 0..7) at p, including as the reply to the OACK; for the sender every acknowledgement pattern at p (each partial ACK j once and twice, full, duplicate, stale, delayed, lost) followed by honest completion; for the receiver duplicates/out-of-order/stray datagrams at p. Random: scripts of <=30 events and <=4 network faults, then honest completion or silence. Oracle on the trace: no block beyond the final block (S2), nothing emitted and no further receive after the final block was acknowledged (S6/R4) or after a peer ERROR (S7/R4), bounded number of receive attempts (S8, cap 64x the transfer length). Non-trivial = silence or ERROR strictly inside the transfer, or a partial ACK after end of file was read; distinct = distinct (scenario, trace shape).");
+    ctx.set_rule("both worker roles under the simulated socket. Exhaustive: for windowsize 1..W (quick 4, thorough 8), file lengths around one and two windows (multiples and non-multiples of blksize), with/without OACK handshake, and EVERY receive position p of the lossless run: the peer falls silent at p; the peer sends ERROR (codes 0..7) at p, including as the reply to the OACK; for the sender every acknowledgement pattern at p (each partial ACK j once and twice, full, duplicate, stale, delayed, lost) followed by honest completion; for the receiver duplicates/out-of-order/stray datagrams at p. Random: scripts of <=30 events and <=4 network faults, then honest completion or silence. Oracle on the trace: no block beyond the final block (S2), nothing emitted and no further receive after the final block was acknowledged (S6/R4) or after a peer ERROR (S7/R4), bounded number of receive attempts (S8, cap 64x the transfer length). A small wire part runs the real tftpd (both port modes): silence after DATA 1 with the server's default timeout (first retransmission after 5 s) and with timeout 1 (exactly a bounded number of transmissions, then silence), an abandoned upload (file cleaned up after 6 timeouts, not earlier), and an ERROR whose message is longer than the receive buffer (transfer ends at once). Non-trivial = silence or ERROR strictly inside the transfer, or a partial ACK after end of file was read; distinct = distinct (scenario, trace shape).");
     let dirs = DirPool::new(ctx, "c07");
     let wmax = ctx.tier.pick(4, 8);
     let cases = dirs.with(|d| exhaustive(d, wmax));
     ctx.extra("exhaustive_max_windowsize", serde_json::json!(wmax));
     enumerate(ctx, "exh-position-x-cause", &cases, true, |c, o| dirs.with(|d| judge(d, c, o)));
     explore(ctx, "random", ctx.tier.pick(100_000, 2_000_000), strategy, |c: &Scenario, o| dirs.with(|d| judge(d, c, o)));
+    super::c07w::run_wire(ctx);
 }
 
 pub fn replay(ctx: &Ctx, part: &str, case: &Value) -> bool {
+    if part.starts_with("wire-") {
+        return super::c07w::replay(ctx, part, case);
+    }
     sim::init();
     let dirs = DirPool::new(ctx, "c07");
     replay_one(ctx, part, case, |c: &Scenario, o| dirs.with(|d| judge(d, c, o)))
